@@ -21,6 +21,9 @@ impl Plugin for LinkConditionerPlugin {
 pub(super) struct LinkConditioner {
     rng: Rng,
     heap: BinaryHeap<TimedMessage>,
+
+    /// Number of inserted messages, used to keep the insertion order for equal timestamps.
+    next_sequence: u64,
 }
 
 impl LinkConditioner {
@@ -51,8 +54,11 @@ impl LinkConditioner {
             timestamp += Duration::from_millis(latency.into());
         }
 
+        let sequence = self.next_sequence;
+        self.next_sequence += 1;
         self.heap.push(TimedMessage {
             timestamp,
+            sequence,
             channel_id,
             message,
         });
@@ -71,13 +77,17 @@ impl LinkConditioner {
 #[derive(Clone, Eq, PartialEq)]
 struct TimedMessage {
     timestamp: Instant,
+    sequence: u64,
     channel_id: u8,
     message: Bytes,
 }
 
 impl Ord for TimedMessage {
     fn cmp(&self, other: &TimedMessage) -> Ordering {
-        other.timestamp.cmp(&self.timestamp)
+        other
+            .timestamp
+            .cmp(&self.timestamp)
+            .then_with(|| other.sequence.cmp(&self.sequence))
     }
 }
 
